@@ -1,6 +1,7 @@
 """C14 — metadata property values round trip with type, order, unit and uncertainty."""
 from vlib.tok import f64, lst, s as S
 ID = 'C14'
+TECHNIQUE = "Lean 4 proof over a hand-written model + a table translated from the source on every run (attribute names of the accessors: getter, setter and reset agree) + differential correspondence (trace validation) with the built library"
 LEAN_MODULES = ['NixModel.Props.C14', 'NixModel.Props.C02Fields', 'NixModel.Gen.Fields']
 THEOREMS = ['Nix.Fields.accessor_overloads_name_one_field', 'Nix.Fields.every_written_field_is_read', 'Nix.Fields.every_read_field_is_written', 'Nix.Fields.reset_removes_what_the_setter_writes', 'Nix.Fields.getter_has_a_setter', 'Nix.Fields.model_field_names', 'Nix.C14.values_roundtrip', 'Nix.C14.replace_changes_count', 'Nix.C14.clear_empty', 'Nix.C14.mixed_type_rejected',
             'Nix.C14.assign_accepted_iff', 'Nix.C14.rejected_assign_leaves_no_trace', 'Nix.C14.assign_keeps_attributes',
